@@ -38,7 +38,7 @@ struct Proc {
     int pid = 0, ppid = 0;
     std::string comm;                       // kernel process name (<= 15 bytes)
     std::vector<std::string> cgroup;        // lines of /proc/<pid>/cgroup
-    int stat_errno = 0;                     // open error for /proc/<pid>/stat (0 = readable)
+    int stat_errno = 0;                     // open error for /proc/<pid>/stat (0 = readable; -1 reads as empty, -2 cut after 5 bytes)
     int status_errno = 0;                   // same for /proc/<pid>/status
 };
 struct FileNode {
@@ -79,7 +79,7 @@ struct World {
     int64_t clock_step_us = 137;
     std::map<std::string, FileNode> files;  // includes directories
     std::map<std::string, SockNode> socks;
-    int stdout_kind = 0;                    // 0 tty (line buffered), 1 pipe, 2 file (fully buffered)
+    int stdout_kind = 0;                    // 0 tty (line buffered), 1 pipe, 2 file (fully buffered), 3 descriptors 1 and 2 are closed (daemon)
     bool has_ctty = true;                   // /dev/tty can be opened
     int64_t disk_free = -1;                 // bytes that regular-file writes may still add (-1 unlimited)
     std::string stdout_bytes, stderr_bytes, tty_bytes; // sinks (output of the run, not input)
